@@ -313,7 +313,9 @@ impl Script {
                 }
                 n += 1;
                 if n > 1_000_000 {
-                    panic!("omnivore handler: parameter iterator does not terminate");
+                    // reported by the property modules through this marker (never a harness panic)
+                    dev.log.push(Ev::PullErr(i16::MIN));
+                    break;
                 }
             }
         }
